@@ -344,6 +344,8 @@ def gen_scenario(seed, force_cfg=None, profile=None, drive=None):
         scn["intArgs"] = True
     if r2.random() < 0.3:
         scn["distinctProtos"] = True
+    if r2.random() < 0.2:
+        scn["rebuild"] = True
     return scn, Behaviour(stable_hash("beh", seed), cfg, prof)
 
 
